@@ -18,7 +18,7 @@ class C10(Check):
     PID = 'C10'
     RULE = ('seeded random past-time (and pastified bounded-future) specifications, with and without sub-specifications; a history of 0..40 updates '
             '(jittered time-stamps), reset(), then a continuation; every post-reset output and the sampling-violation counter are compared with a freshly '
-            'constructed monitor fed the continuation only, and with the model; reset() before the first update; updates that omit a variable; '
+            'constructed monitor fed the continuation only, and with the model; reset() before the first update; further reset() calls inside the history (35% of the cases); updates that omit a variable; '
             'non-trivial = stateful formula and history length >= 1; distinct by (formula, history, continuation)')
 
     def gen_cases(self, rng, tier):
@@ -51,7 +51,9 @@ class C10(Check):
                 v = rng.choice(fml.fvars(f))
                 omit = [[kk, v] for kk in range(h, n) if rng.random() < 0.5]
             sub = rng.random() < 0.3
-            cases.append({'f': f, 'n': n, 'h': h, 'nv': nv, 'cols': cols, 'times': times, 'omit': omit, 'sub': sub})
+            # earlier reset() calls inside the history (a monitor can be reset any number of times)
+            resets = sorted(rng.sample(range(0, h + 1), min(h + 1, rng.choice([1, 1, 2])))) if rng.random() < 0.35 else []
+            cases.append({'f': f, 'n': n, 'h': h, 'nv': nv, 'cols': cols, 'times': times, 'omit': omit, 'sub': sub, 'resets': resets})
         return cases
 
     def _spec(self, c):
@@ -69,7 +71,12 @@ class C10(Check):
         base = {'monitor': 'discrete-online', 'vars': fml.VARS[:c['nv']]}
         base.update(self._spec(c))
         a = dict(base)
-        a['calls'] = updates(c['f'], c['cols'], c['times'], 0, h) + [['reset']] + updates(c['f'], c['cols'], c['times'], h, n, om) + [['counter']]
+        hist, lo = [], 0
+        for r in [x for x in c.get('resets', []) if x <= h]:
+            hist += updates(c['f'], c['cols'], c['times'], lo, r) + [['reset']]
+            lo = r
+        hist += updates(c['f'], c['cols'], c['times'], lo, h)
+        a['calls'] = hist + [['reset']] + updates(c['f'], c['cols'], c['times'], h, n, om) + [['counter']]
         b = dict(base)
         b['calls'] = updates(c['f'], c['cols'], c['times'], h, n, om) + [['counter']]
         return [a, b]
@@ -96,7 +103,8 @@ class C10(Check):
         for r in b['calls']:
             if r['status'] != 'ok':
                 return 'dropped', None        # the fresh monitor itself fails: not a reset question
-        post = [r['value'] for r in a['calls'][h + 1:]]
+        nres = len([x for x in c.get('resets', []) if x <= h])
+        post = [r['value'] for r in a['calls'][h + nres + 1:]]
         fresh = [r['value'] for r in b['calls']]
         if post != fresh:
             return 'violation', dict(det, expected={'fresh monitor (outputs..., counter)': fresh}, observed={'after reset': post})
@@ -113,7 +121,7 @@ class C10(Check):
         return c['h'] >= 1 and bool(fml.ops(c['f']) & {'prev', 'sprev', 'once', 'hist', 'since', 'oncet', 'histt', 'sincet', 'rise', 'fall'})
 
     def key(self, c):
-        return json.dumps([fml.to_sx(c['f']), c['cols'], c['h'], c.get('omit'), c.get('sub')])
+        return json.dumps([fml.to_sx(c['f']), c['cols'], c['h'], c.get('omit'), c.get('sub'), c.get('resets')])
 
     def describe(self, c):
         return {'spec': self._spec(c), 'history': c['h'], 'continuation': c['n'] - c['h'], 'data': c['cols'], 'time': c['times'], 'omitted': c.get('omit')}
@@ -125,6 +133,7 @@ class C10(Check):
             c['n'] = n
             c['h'] = min(c['h'], max(n - 1, 0))
             c['omit'] = [[a, b] for a, b in c.get('omit', []) if a < n]
+            c['resets'] = [x for x in c.get('resets', []) if x <= c['h']]
             if len(c['times']) != n:
                 c['times'] = list(range(n))
         return c
